@@ -87,8 +87,10 @@ def _case(draw, tier):
         for x in topo:
             if x.get("emit") and x["k"] == "func":
                 x["cache"] = True
+    em = [x["name"] for x in topo if x.get("emit") and x["k"] == "func"]
     return {"part": "A", "topo": topo, "nodes": draw(gen.permuted(nodes)), "sched": draw(st.lists(st.integers(0, 7), max_size=40)), "cache_emitters": cache_emitters,
-            "perms": [draw(st.permutations(list(range(len(nodes))))) for _ in range(2)]}
+            "perms": [draw(st.permutations(list(range(len(nodes))))) for _ in range(2)],
+            "entry_emitter": draw(st.sampled_from(em)) if em and prob(draw, 0.5) else None}
 
 
 def strategy(tier):
@@ -256,6 +258,9 @@ def _part_a(case, ev):
                 raise Violation("c17.node_order", f"node order {perm}: {o2.brief()} with calls {sorted(map(repr, c2.log))} vs {base_out.brief()} with calls {sorted(map(repr, base_ctx.log))}")
             monitor(f"sync DAG order {perm}", rec.events, pn, with_steps=False, stats=stats)
         labels.add("permuted_orders")
+    # the same under an entry point placed on an emitter: its waiters are downstream of it through the ordering edge alone
+    if case.get("entry_emitter") and not has_interrupt and not edge_defaults:
+        _entry_variant(case, topo, nodes, vals, prod, emitters, stats, labels)
     multi = any(len(n.get("wait_for", [])) >= 2 for n in nodes)
     if multi:
         labels.add("waiter_on_two_names")
@@ -265,6 +270,56 @@ def _part_a(case, ev):
         labels.add("gate_emitter")
     ev.count("waiter_starts", stats["waiter_starts"])
     ev.case(case, multi or stats["rearmed"] > 0, sorted(labels))
+
+
+def _entry_variant(case, topo, nodes, vals, prod, emitters, stats, labels):
+    e = case["entry_emitter"]
+    active = set(ref.descendants(topo, {e})) | {e}
+    changed = True
+    while changed:
+        changed = False
+        for n in topo:
+            if n["name"] not in active and any(any(x in active for x in emitters.get(w, [])) for w in n.get("wait_for", [])):
+                active.add(n["name"])
+                active |= set(ref.descendants(topo, {n["name"]}))
+                changed = True
+    vals2 = dict(vals)
+    for n in topo:
+        if n["name"] in active:
+            for p in n["params"]:
+                if p in prod and prod[p]["name"] not in active:
+                    vals2[p] = ("up", p)
+    env, args = ref.eval_dag(topo, vals2, {}, active=active)
+    runs = {n["name"] for n in topo if n["name"] in active and args.get(n["name"]) is not None}
+    changed = True
+    while changed:
+        changed = False
+        for n in topo:
+            if n["name"] in runs:
+                if any(not any(x in runs for x in emitters.get(w, [])) for w in n.get("wait_for", [])) or any(
+                        p in prod and prod[p]["name"] in active and prod[p]["name"] not in runs and p not in vals2 for p in n["params"]):
+                    runs.discard(n["name"])
+                    changed = True
+    for runner in ("sync", "async"):
+        ctx = Ctx()
+        g = make_graph(ctx, {"nodes": nodes}, "async" if runner == "async" else "sync").with_entrypoint(e)
+        tag = f"{runner} DAG entry={e}"
+        if runner == "sync":
+            rec = Recorder()
+            out = run_sync(g, vals2, event_processors=[rec], on_internal_override="ignore")
+            events = rec.events
+        else:
+            out, sched = run_scheduled(ctx, g, vals2, case["sched"], on_internal_override="ignore")
+            events = sched.hold.events
+        if out.status != "completed":
+            raise Violation("c17.run_failed", f"[{tag}] {out.brief()}", entry=True)
+        started = {x.node_name for x in events if type(x).__name__ == "NodeStartEvent"}
+        for n in topo:
+            if n["name"] in runs and n.get("wait_for") and n["name"] not in started:
+                raise Violation("c17.waiter_never_ran", f"[{tag}] waiter {n['name']} never ran although {n['wait_for']} were produced inside the entry point's scope and its inputs exist", entry=True)
+        monitor(tag, events, nodes, with_steps=(runner == "async"), stats=stats, supplied=set(vals2) - set(vals))
+    if any(n.get("wait_for") and n["name"] in runs and not (set(n["params"]) & {o for o in prod if prod[o]["name"] == e}) for n in topo):
+        labels.add("entry_on_emitter_with_ordering_only_waiter")
 
 
 def _part_b(case, ev):
